@@ -5,6 +5,7 @@ import Rare.Proofs.C12Ext
 import Rare.Proofs.C12Amd64
 import Rare.Proofs.C12Utf8
 import Rare.Proofs.C12LazyM
+import Rare.Proofs.C12Rx
 import Rare.Gen.C12
 /-!
 Property C12 – dissect matching equals its specification; ignore-case only adds matches.
@@ -957,6 +958,52 @@ theorem lazy_witnesses :
     lazyDissect ⟨[], [⟨[97], [45]⟩, ⟨[98], [58]⟩]⟩ [49, 45, 50, 45, 51, 58, 52] = some [0, 6, 0, 1, 2, 5] := by
   refine ⟨?_, ?_, ?_, ?_, ?_, ?_, ?_, ?_⟩ <;> decide
 
+/-! ### Round 4c – seam C12 / C02: the pattern as an expression of C02's model of Go's regexp engine -/
+
+/-- **"replicates logic from regex", as a theorem between the two matchers' models.**  `patRe p` is
+the dissect pattern as an expression of C02's regex model (`Model/C02Rx.lean`, the engine behind
+`--match`): `lit₀(.*?)lit₁(.*?)…litₙ` with `(?s)`, captured tokens numbered groups around a lazy
+loop, skipped tokens the bare loop, a last token without trailing literal the greedy loop.
+`rxDissect` is C02's `FindSubmatchIndex` (leftmost-first backtracking priority, `-1` for groups
+that did not take part) on that expression.  For every compiled pattern, both modes (pattern and
+line as the mode compares them) and every history, the dissect instance returns exactly what the
+regex engine's model returns – offsets, group order, match/no match. -/
+theorem dissect_eq_regexp_model (ic : Bool) (p : Pat) (hp : p.Shape) (d : Dissect)
+    (hc : compileEx p.render ic = .ok d) (lines : List Bytes) :
+    matchAll d lines = .ok (lines.map fun l => rxDissect (patFor ic p) (foldFor ic l)) := by
+  have hm : midLits p.toks = true := by
+    have h := compile_errors ic p hp none (by simp)
+    simp only [tailText, List.append_nil, Option.isSome_none] at h
+    rw [hc] at h
+    cases he : specErrors false p.toks [] with
+    | none => exact midLits_of_specErrors _ _ he
+    | some e => rw [he] at h; cases h
+  have hm' : midLits (patFor ic p).toks = true := by
+    cases ic
+    · simpa [patFor] using hm
+    · simpa [patFor, Pat.lowerLits, midLits_lowerLit] using hm
+  rw [dissect_eq_spec ic p hp d hc]
+  congr 1
+  apply List.map_congr_left
+  intro l _
+  rw [rxDissect_eq_spec _ _ hm', specFor_patFor]
+
+/-- the same for specification and regex model alone – every pattern VALUE whose tokens all but the
+last have a trailing literal, also values no text denotes -/
+theorem spec_eq_regexp_model (p : Pat) (hm : midLits p.toks = true) (line : Bytes) :
+    rxDissect p line = (specDissect p line).map (·.map Int.ofNat) :=
+  rxDissect_eq_spec p line hm
+
+/-- Just outside the class (kernel-checked): with an EMPTY literal between two tokens (no pattern
+text denotes this; `CompileEx` answers "sequential token") the regular expression is `(.*)(.*?)a`
+and a regex engine gives bytes back: on `ba` it matches (`[0,2,0,1,1,1]`), the scan – the first
+token takes the rest of the line – does not. -/
+theorem regexp_model_counterexample :
+    midLits [⟨[120], []⟩, ⟨[121], [97]⟩] = false ∧
+    specDissect ⟨[], [⟨[120], []⟩, ⟨[121], [97]⟩]⟩ [98, 97] = none ∧
+    rxDissect ⟨[], [⟨[120], []⟩, ⟨[121], [97]⟩]⟩ [98, 97] = some [0, 2, 0, 1, 1, 1] := by
+  refine ⟨by decide, by decide, by decide⟩
+
 /-! ### Non-vacuity: the hypotheses above are satisfiable on concrete, non-trivial values -/
 
 /-- `k=%{x} %{?s};%{y}` -/
@@ -1052,6 +1099,9 @@ example : (∀ t ∈ histPat.toks, t.lit ≠ []) ∧
 -- a reading that is NOT the least one exists (so the minimality clause of `match_is_least_split` says something)
 example : IsMatch (patFor true histPat) (foldFor true [73, 68, 61, 49, 59, 105, 100, 61, 50, 59]) 5 [1] ∧
     IsMatch (patFor true histPat) (foldFor true [73, 68, 61, 49, 59, 105, 100, 61, 50, 59]) 0 [1] := by
+  constructor <;> decide
+-- the regex model on a pattern with a skipped token and a token to the end of the line
+example : midLits exPat.toks = true ∧ rxDissect exPat exLine = some [1, 8, 3, 4, 7, 8] := by
   constructor <;> decide
 
 end Rare.C12
